@@ -7,7 +7,7 @@ ROOT = os.path.dirname(os.path.dirname(os.path.abspath(__file__)))
 # id -> (technique, level text, level note, design ref)
 CLAIMED = {
     "C05": (
-        "property-based differential testing: generated formulas x here-and-there interpretations; oracle = independent Kripke evaluator vs classical evaluation of gamma(F) (proptest, shrinking); plus formula text in conventional notation (checker's own minimal-parentheses printer) vs the tree anthem reads, and `translate --with gamma` on text vs gamma of the tree",
+        "property-based differential testing: generated formulas x here-and-there interpretations; oracle = independent Kripke evaluator vs classical evaluation of gamma(F) (proptest, shrinking); plus formula text in conventional notation (checker's own minimal-parentheses printer) vs the tree anthem reads, and `translate --with gamma` on text vs gamma of the tree; the printed gamma(F) must read back as the tree gamma(F)",
         "Exploration: on every generated formula (all connectives, three sorts, free variables) and every generated pair H subset-of T the HT truth value computed by the checker's own evaluator equals the classical truth value of gamma(F) in I_(H,T); predicates named p/hp/tp test that copies stay distinct. Sampling cannot prove the law, but gamma is a small structural recursion and each connective pair is hit thousands of times per run. The parser reads conventionally written formula text (arrow chains, and/or chains, prefix operators) as the formula it denotes.",
         "Trusted: the checker's window-relativised evaluator (sound here because gamma touches neither terms nor quantifier domains); proptest generators; finite extents.",
         "4/C05",
@@ -28,7 +28,7 @@ CLAIMED.update({
         "4/C14",
     ),
     "C15": (
-        "property-based round-trip testing: (a) generated target-language trees via an independent printer -> parse/print/parse identity; (b) every output of translate/simplify on generated programs, and of gamma/simplify on generated hand-written theories, is re-parsed and compared (tree, else meaning by evaluation)",
+        "property-based round-trip testing: (a) generated target-language trees via an independent printer -> parse/print/parse identity; (b) every output of translate/simplify on generated programs, and of gamma/simplify on generated hand-written theories, is re-parsed and compared (tree, else meaning by evaluation); (c) candidate identifiers at and beyond the edge of the documented shapes: whatever program, theory, user guide or specification the grammars accept must print text that reads back as the same tree",
         "Exploration: (a) as C14 for integer/general terms, formulas, theories, specifications (all roles/directions/names) and user guides with every accepted sort spelling; (b) the text printed for tau-star, natural, mu, gamma, completion and the 9 simplify variants on generated programs (predicate names such as notp, _r; variables named like the translators' fresh names) must be accepted, stable, and denote the same theory; the same for gamma and the 9 simplify variants applied to generated theories with leading-underscore names, keyword-prefixed names and one name at several sorts.",
         "Trusted: the checker's printer; for (b) the tree comparison (falls back to the checker's evaluator only when trees differ).",
         "4/C14-C15",
@@ -49,7 +49,7 @@ CLAIMED.update({
         "4/C07",
     ),
     "C18": (
-        "property-based testing: (a) checker-driven iteration of the composed simplification pass with cycle detection and pass bound, idempotence of the fixpoint under all strategies; (b) byte comparison of repeated runs of the real binary in fresh processes, and of the saved files with the problems built in-process",
+        "property-based testing: (a) checker-driven iteration of the composed simplification pass with cycle detection and pass bound, idempotence of the fixpoint under all strategies; (b) byte comparison of repeated runs of the real binary in fresh processes, and of the saved files with the problems built in-process (programs named in five argument layouts incl. against the alphabet and file-plus-directory, all directions)",
         "Exploration: termination is decided without a clock (cycle = revisited formula; bound on passes), the fixpoint must equal apply_fixpoint and be stable under every strategy; determinism is checked by running translate/simplify/verify --save-problems (strong tasks and external tasks with several placeholders) three times in fresh processes on generated inputs with many predicates/symbols and comparing bytes and file sets.",
         "Trusted: process isolation gives fresh hash seeds; non-termination that is neither a cycle nor exceeds the pass bound cannot be observed.",
         "4/C18",
@@ -64,7 +64,7 @@ CLAIMED.update({
         "4/C01",
     ),
     "C03": (
-        "property-based differential testing: generated program pairs x flags x (H,T) incl. H not subset of T; oracle = reference HT satisfaction of both programs vs exact classical evaluation of every emitted problem (hooked syntax trees) in I_(H,T)",
+        "property-based differential testing: generated program pairs x flags x (H,T) incl. H not subset of T; oracle = reference HT satisfaction of both programs vs exact classical evaluation of every emitted problem (hooked syntax trees) in I_(H,T); a twelfth of the cases also through the binary (five ways of naming the two program files) with the written files compared to the problems judged in-process",
         "Exploration: an interpretation of the h-/t-copies refutes an emitted forward/backward problem iff H subset-of T and (H,T) satisfies one program but not the other, over all flag combinations and both formula representations; unrequested directions must be absent.",
         "Trusted: reference semantics, exact evaluator; identifiers chosen so that symbol renaming does not interfere (C09/C12 cover renaming).",
         "4/C03",
@@ -76,13 +76,13 @@ CLAIMED.update({
         "4/C04",
     ),
     "C08": (
-        "property-based equivalence testing: generated regular/irregular rules x HT interpretations with non-integers at every position; oracle = exact HT evaluation of natural/mu formula vs tau* formula (and vs the reference semantics)",
+        "property-based equivalence testing: generated regular/irregular rules x HT interpretations with non-integers at every position; oracle = exact HT evaluation of natural/mu formula vs tau* formula (and vs the reference semantics); the printed mu/natural theory must read back as the translation",
         "Exploration: every formula of mu() and, for accepted rules, of natural() has the tau* formula's truth value in every generated (H,T); an integer-sorted variable that excludes a satisfying non-integer value would show as a mismatch.",
         "Trusted: exact evaluator, reference semantics.",
         "4/C08",
     ),
     "C09": (
-        "property-based testing with a strict independent TFF reader and type checker as oracle over every problem of generated strong/external tasks x flags; known-finding shapes in a separate tolerated campaign; tasks with generated proof outlines (definitions, lemmas, inductive lemmas); syntax differential of a sample of problems against tptp4X",
+        "property-based testing with a strict independent TFF reader and type checker as oracle over every problem of generated strong/external tasks x flags; known-finding shapes in a separate tolerated campaign; tasks with generated proof outlines (definitions, lemmas, inductive lemmas); syntax differential of a sample of problems against tptp4X; candidate identifiers at and beyond the edge of the documented shapes (the grammars decide acceptance, whatever is accepted must come out well-formed)",
         "Exploration: each emitted problem must be valid typed TFF: words, unique names, one declaration and type per identifier, declared before use, typed quantifiers, one conjecture. Tricky-but-handled identifier shapes are in the main campaign; the recorded name-mangling defects are confirmed on recorded inputs and tolerated by narrow signature only.",
         "Trusted: the checker's TFF reader/type checker (syntax acceptance cross-checked against tptp4X).",
         "4/C09",
@@ -109,7 +109,7 @@ CLAIMED.update({
         "4/C02",
     ),
     "C10": (
-        "property-based fault injection through the real binary: generated strong tasks and external tasks with proof outlines x generated prover plans (13 outcome kinds, delays, 0-8 instances, missing executable, prover that exits without reading) with a stand-in vampire that records its stdin; oracle = plan-derived expected verdict, exact multiset equality of handed-over and saved problem texts, per-problem status lines",
+        "property-based fault injection through the real binary: generated strong tasks and external tasks with proof outlines x generated prover plans (14 outcome kinds incl. Theorem followed by death from a signal, delays, 0-8 instances, missing executable, prover that exits without reading) with a stand-in vampire that records its stdin; oracle = plan-derived expected verdict, exact multiset equality of handed-over and saved problem texts, per-problem status lines",
         "Exploration: Success iff every planned outcome prints SZS status Theorem, every problem handed over exactly once byte-identical to the saved file, distinct names, status lines match the plan, exit status 0; half of the plans have zero or exactly one non-Theorem outcome at a generated position.",
         "Trusted: the stand-in prover; completion orders are induced by delays and instance counts under the OS scheduler (the harness does not own the interleaving).",
         "4/C10 and 7",
@@ -121,13 +121,13 @@ CLAIMED.update({
         "4/C13",
     ),
     "C16": (
-        "mutation-based fuzzing with a crash oracle: accepted texts (repository examples, directed corner texts, generated programs/theories) under token-level mutations, through every front end and every later stage in-process under catch_unwind, sampled through the real binary; raw bytes (invalid UTF-8) through the binary as files; libFuzzer targets in the thorough tier",
+        "mutation-based fuzzing with a crash oracle: accepted texts (repository examples, directed corner texts, generated programs/theories) under token-level mutations, through every front end and every later stage in-process under catch_unwind, sampled through the real binary; raw bytes (invalid UTF-8) through the binary as files, also with proof search against a missing prover and against a stand-in prover that is killed by a signal, prints noise or exits non-zero; libFuzzer targets in the thorough tier",
         "Exploration: no panic, abort or hang in any stage for texts of moderate size; non-zero exit implies a message on stderr; numerals beyond the integer types, huge arities, empty/comment-only files are directed cases.",
         "Trusted: catch_unwind on 512 MB stacks (stack exhaustion is observable only through the binary; deep nesting is a recorded known finding).",
         "4/C16",
     ),
     "C19": (
-        "metamorphic property-based testing: the same task under all 8 flag combinations x one interpretation; oracle = equality of the refutation verdict (exact evaluation) across combinations",
+        "metamorphic property-based testing: the same task under all 8 flag combinations x one interpretation (external tasks also over identifiers that anthem renames, with comparisons written constant-first); oracle = equality of the refutation verdict (exact evaluation) across combinations",
         "Exploration: for external tasks (guided interpretations) and strong tasks over unrestricted random programs, the verdict 'some problem has all axioms true and its conjecture false' is identical under every combination of simplify/eq-break/decomposition whenever definite.",
         "Trusted: exact evaluator; no reference semantics needed (metamorphic relation).",
         "4/C19",
